@@ -47,7 +47,8 @@ Inductive case :=
              (expect : res (list Z))
 | CBExtract (chy chx : list Z) (keys : list (Z * Z)) (estarts eshape : list Z)
             (w : (Z * Z) * (Z * Z)) (fill : Z) (expect : res (list Z))
-| CBDtype (dts : list dtype) (f : fill_kind) (expect_init expect_extract : dtype).
+| CBDtype (dts : list dtype) (f : fill_kind) (expect_init expect_extract : dtype)
+| CBDtypeReq (dts : list dtype) (f : fill_kind) (req : option dtype) (expect_extract : dtype).
 
 Definition check (c : case) : bool :=
   match c with
@@ -63,4 +64,5 @@ Definition check (c : case) : bool :=
                     (extract_yx (fun v => v) (add_starts es) t (map (mk_block chy chx) keys) fill w)) e
   | CBDtype dts f e1 e2 =>
       dtype_eqb (ba_dtype dts) e1 && dtype_eqb (ba_extract_dtype (ba_dtype dts) f) e2
+  | CBDtypeReq dts f req e => dtype_eqb (ba_extract_dtype_opt (ba_dtype dts) req f) e
   end.
